@@ -610,13 +610,13 @@ def explore(mods, sc, tier, bag, herr, stats):
         return r
 
     r0 = one(())
-    if sc['api'] == 'write' and sc['map'] == 'same':
-        for s_ in r0.ctl.streams:
-            if s_.who == 'out':
-                m_ = re.search(r';base64[^,]*,([A-Za-z0-9+/=_-]*)',
-                               s_.getvalue())
-                for ch in set(m_.group(1) if m_ else ''):
-                    stats['b64:' + ch] += 1
+    if sc['api'] == 'write' and sc['map'] == 'same' and 'map' in ref:
+        # which base64 digits the payload of this scenario needs (computed
+        # from the lower-level API's map, not from the helper's output)
+        pay = base64.b64encode(json.dumps(
+            ref['map'], sort_keys=True, ensure_ascii=False).encode('utf-8'))
+        for ch in set(pay.decode('ascii')):
+            stats['b64:' + ch] += 1
     again = execute(mods, sc, ())
     if again.ctl.log != r0.ctl.log:
         herr.append('fault-free site log not reproducible for %r' % dict(sc))
